@@ -205,7 +205,8 @@ def impl():
     holders_mod.SQLLineageHolder.of = staticmethod(of)
 
     try:
-        I.default_provider = inspect.signature(runner_mod.LineageRunner.__init__).parameters["metadata_provider"].default
+        d = inspect.signature(runner_mod.LineageRunner.__init__).parameters["metadata_provider"].default
+        I.default_provider = d if isinstance(d, MetaDataProvider) else None
     except Exception:
         I.default_provider = None
     _IMPL = I
@@ -579,8 +580,28 @@ def part_ab(chk, drv):
     n_runs = n_fault = n_mism = 0
     dist = {"runs": 0, "ok": 0, "error": {}, "fault": {"none": 0, "analyzeAt": 0, "lookupFails": 0, "assemble": 0, "split": 0},
             "events": {}, "stmts": {}}
+    reach = {"__exit__ without exception": 0, "__exit__ with exception in flight": 0, "session never entered (split raised)": 0,
+             "get_table_columns from session": 0, "get_table_columns from base": 0, "_get_table_columns raising": 0,
+             "register_session_metadata": 0, "register on a falsy provider": 0, "gate closed (falsy provider)": 0,
+             "register overwriting a session entry": 0}
     for res, ans in zip(results, answers):
         cfg, runs, obs = res["cfg"], res["runs"], res["obs"]
+        falsy = cfg["kind"] == "dict" and not cfg["base"]
+        for o in obs:
+            ev = o["events"]
+            if ["deregister"] in ev:
+                reach["__exit__ without exception" if o["result"][0] == "ok" else "__exit__ with exception in flight"] += 1
+            else:
+                reach["session never entered (split raised)"] += 1
+            reach["get_table_columns from session"] += sum(1 for e in ev if e[0] == "lookupSession")
+            reach["get_table_columns from base"] += sum(1 for e in ev if e[0] == "lookupBase")
+            reach["_get_table_columns raising"] += sum(1 for e in ev if e[0] == "lookupRaised")
+            regs = [e[1] for e in ev if e[0] == "register"]
+            reach["register_session_metadata"] += len(regs)
+            reach["register overwriting a session entry"] += len(regs) - len(set(regs))
+            if falsy:
+                reach["gate closed (falsy provider)"] += 1
+                reach["register on a falsy provider"] += len(regs)
         if ans is not None and "error" in ans:
             raise Infra("model driver error: " + ans["error"])
         fails = history_failures(cfg, runs, obs)
@@ -630,6 +651,8 @@ def part_ab(chk, drv):
     chk.coverage["ab_runs_vs_model_and_fresh_provider"] = n_runs
     chk.coverage["ab_model_mismatches"] = n_mism
     chk.coverage["ab_distribution"] = dist
+    chk.coverage["anchor_reach"] = reach
+    chk.coverage["unreached_anchors"] = sorted(k for k, v in reach.items() if v == 0)
     return n_runs
 
 
@@ -1064,8 +1087,17 @@ def part_b_processes(chk, corpus):
                       i > 0 and (alone[canon_json([cfg, spec])]["result"][0] == "ok"))
         if fails:
             small = shrink_process_history(cfg, runs, obs, al, probe)
-            chk.violation("the outcome of a run depends on what ran earlier in the same process: " + fails[0],
-                          {"kind": "process-history", "provider": cfg, "runs": small, "probe": probe, "failures": fails[:5]})
+            # a leak through process state is deterministic: the (shrunk) history must fail again in new processes;
+            # a difference that does not reproduce is nondeterminism of a single run (C11's subject) and is only counted
+            again = eval_process_history(cfg, small, probe)[0]
+            if not again and small != runs:
+                small = list(runs)
+                again = eval_process_history(cfg, small, probe)[0]
+            if not again:
+                chk.coverage["b_unreproducible_differences"] = chk.coverage.get("b_unreproducible_differences", 0) + 1
+                continue
+            chk.violation("the outcome of a run depends on what ran earlier in the same process: " + again[0],
+                          {"kind": "process-history", "provider": cfg, "runs": small, "probe": probe, "failures": again[:5]})
             return n
     chk.coverage["b_process_histories"] = len(hists)
     chk.coverage["b_runs_vs_fresh_process"] = n
@@ -1111,14 +1143,15 @@ def part_c_threads(chk, corpus):
     rng = chk.rng
     thorough = chk.tier == "thorough"
     n_seeds = 8 if thorough else 3
-    n_tasks = 300 if thorough else 64
+    n_tasks = 300 if thorough else 48
     pool = [c for c in corpus if c["src"] != "tests-metadata"]
     total = 0
     seq_cache = {}
     old_si = sys.getswitchinterval()
-    sys.setswitchinterval(1e-4)
     try:
         for seed_i in range(n_seeds):
+            # GIL hand-over every 1 ms (≈ 30 switches per statement analysis); every third pool every 0.1 ms
+            sys.setswitchinterval(1e-4 if seed_i % 3 == 2 else 1e-3)
             tasks = []
             for _ in range(n_tasks):
                 c = rng.choice(pool)
@@ -1187,9 +1220,12 @@ def part_default(chk, corpus):
     """`LineageRunner(sql)` without a provider: the module-level default instance must be clean after every run however
     it ended, and a tap provider of the same class without metadata (falsy) must see no lookup at all"""
     I = impl()
-    if I.default_provider is None:
-        chk.stale.append({"kind": "default-provider", "why": "LineageRunner.__init__ has no metadata_provider default any more"})
-        return 0
+    shared = isinstance(I.default_provider, I.MetaDataProvider)
+    chk.coverage["default_provider_shared_instance"] = shared
+    if not shared:
+        # `LineageRunner.__init__` no longer evaluates a provider at import: there is no implicit shared object; the runs
+        # below are still made (results are compared with fresh processes in part B)
+        I.default_provider = None
     n = 0
     runs = []
     for c in [c for c in corpus if c["cfg"] is None][: (200 if chk.tier == "thorough" else 40)]:
@@ -1207,7 +1243,7 @@ def part_default(chk, corpus):
                           {"kind": "history", "provider": None, "runs": small, "probe": []})
             return n
     chk.coverage["default_provider_runs"] = n
-    chk.coverage["default_provider_is_falsy"] = not bool(I.default_provider)
+    chk.coverage["default_provider_is_falsy"] = (not bool(I.default_provider)) if shared else None
     return n
 
 
@@ -1276,6 +1312,12 @@ def run(chk):
     drv = Driver() if chk.lean.driver_ok else None
     if drv is None:
         chk.stale.append({"kind": "driver", "why": "model driver does not build"})
+    if chk.tier == "thorough" and chk.lean.build_ok:
+        from common import leanchecker
+        ok, out = leanchecker(["SqlLineage.Model.Provider", "SqlLineage.Props.C12"])
+        chk.coverage["leanchecker_ok"] = ok
+        if not ok:
+            chk.lean.forbidden.append("leanchecker rejected SqlLineage.Props.C12: " + out[-300:])
     t0 = time.time()
     times = {}
 
